@@ -377,6 +377,15 @@ func OutStructType(outs []OutSpec) reflect.Type {
 	return reflect.StructOf(fields)
 }
 
+// CErr is a concrete error type: constructors may declare *CErr as their last
+// result instead of error.
+type CErr struct{ Cause error }
+
+func (e *CErr) Error() string { return "cerr: " + e.Cause.Error() }
+func (e *CErr) Unwrap() error { return e.Cause }
+
+var ptrErrType = reflect.TypeOf((*CErr)(nil))
+
 // FuncType returns the constructor signature for a registration.
 func FuncType(r *Reg) reflect.Type {
 	var in, out []reflect.Type
@@ -401,7 +410,9 @@ func FuncType(r *Reg) reflect.Type {
 		out = []reflect.Type{OutStructType(r.Outs)}
 	case FormVoid:
 	}
-	if r.HasErr {
+	if r.HasErr && r.PtrErr {
+		out = append(out, ptrErrType)
+	} else if r.HasErr {
 		out = append(out, ErrorType)
 	}
 	return reflect.FuncOf(in, out, r.Variadic && !r.UseIn && len(in) > 0 && in[len(in)-1].Kind() == reflect.Slice)
@@ -583,7 +594,11 @@ func (w *World) invoke(r *Reg, ft reflect.Type, args []reflect.Value) []reflect.
 		if r.HasErr {
 			inv.Outcome = 2
 			inv.EndSeq = w.NextSeq()
-			res[nout-1] = reflect.ValueOf(&f.Err).Elem()
+			if r.PtrErr {
+				res[nout-1] = reflect.ValueOf(&CErr{Cause: f.Err})
+			} else {
+				res[nout-1] = reflect.ValueOf(&f.Err).Elem()
+			}
 			w.faultFires()
 			return res
 		}
